@@ -949,6 +949,27 @@ def quotaSelect (plan : Res) (cands : List PAlloc) : List PAlloc × Res :=
     let total := addX st.2 v.res
     if strictlyOnlyExisting (some plan) (some total) true then (st.1 ++ [v], total) else st) ([], [])
 
+/-- the marking loop of preemptVictims over the selected victims: MarkPreempted on each; a victim that was released since
+    filterAllocations listed it is skipped (`continue`): not marked, not booked as preempting. (It stays in the list
+    handed to notifyRMAllocationReleased.) -/
+def quotaMarkLoop (allocs : List PAlloc) : List String → List PAlloc
+  | [] => allocs
+  | k :: t => if isReleased allocs k then quotaMarkLoop allocs t else quotaMarkLoop (setPreempted k true allocs) t
+
+/-- the selected victims the loop marks -/
+def quotaMarked (allocs : List PAlloc) (sel : List String) : List String := sel.filter (fun k => !isReleased allocs k)
+
+/-- quota preemption with the allocations `late` released between filterAllocations and the marking loop and `sel` the
+    selected victims (`quotaSelect` of every leaf that takes part): the allocations afterwards. IncPreemptingResource is
+    called for exactly the victims marked here, so `preemptingOf` of the resulting world is the queues' preempting
+    resource afterwards. -/
+def quotaPreemptLate (w : World) (late sel : List String) : List PAlloc := quotaMarkLoop (releaseLate late w.allocs) sel
+
+/-- specification side: the allocations of the subtree of queue `i` that an operation marked - named by `marked` and
+    not marked before -/
+def newlyMarked (w : World) (marked : List String) (i : Nat) : List PAlloc :=
+  w.allocs.filter (fun a => (marked.contains a.key && !a.preempted) && inSubtree w i a.q)
+
 /-- getChildQueuesPreemptableResource, first pass, one child: the usage of the child that counts as preemptable
     (`none` = child skipped: no usage, or usage within the guarantee). With a guarantee set only the types ABOVE the
     guarantee count, by the amount above it; without a guarantee the whole usage counts. The share of the parent's plan
